@@ -302,8 +302,9 @@ def run(rep, ctx):
         for b in sizes:
             c = strip(f.nodes[b["cond"]])
             if c["k"] == "CXXMemberCallExpr" and c.get("callee", "").endswith("::size") \
-                    and "objvals" in render(c) and guarded(f.nodes[b["cond"]]) \
-                    and f.nodes[b["term"]]["k"] == "IfStmt":
+                    and "objvals" in render(c) and f.nodes[b["term"]]["k"] == "IfStmt":
+                g1.check(guarded(f.nodes[b["cond"]]), "values-test-under-guard", short_loc(c.get("l")),
+                         "`if (sol.objvals.size())` is control-dependent on IsProblemSolvedOrFeasible()")
                 t = cfg.succ[b["id"]][0]
                 w = cfg.path_avoiding((t, -1), "exit",
                                       [n["i"] for n, lit in objw if "objective" in lit])
@@ -313,7 +314,7 @@ def run(rep, ctx):
                 done = True
                 break
         if not done:
-            raise AnalysisBroken("C10.G1: `if (sol.objvals.size())` under the guard not found")
+            raise AnalysisBroken("C10.G1: `if (sol.objvals.size())` not found")
 
     # ---- F1 -------------------------------------------------------------
     f1 = rep.rule("C10.F1", "FLOW",
